@@ -22,13 +22,13 @@ Proof.
   intros Hmax. unfold skip_tag.
   sbind; [instantiate (1 := fun skip => (1 <= skip)%Z)|].
   - destruct (wt =? 0).
-    { sbind; [apply decode_varint_safe|]. intros [v n] (_ & Hn & _). cbn [safe bind fst snd]. lia. }
+    { sbind; [apply decode_varint_safe|]. intros [v n] (_ & Hn & _). cbn [safe bind fst snd i_off]. lia. }
     destruct (wt =? 2).
     { sbind; [apply decode_varint_safe|]. intros [v n] (_ & Hn & Hl).
       destruct (u64_of_int (zlen data - n) <? v) eqn:Hc; [exact I|].
-      destruct (length_check (zlen data) n v ltac:(lia) Hmax Hc) as (H0 & _ & _). cbn [safe bind fst snd]. lia. }
-    destruct (wt =? 5); [cbn [safe bind fst snd]; lia|]. destruct (wt =? 1); [cbn [safe bind fst snd]; lia|]. exact I.
-  - intros skip Hs. destruct (zlen data <? skip)%Z eqn:Hc; [exact I|]. cbn [safe bind fst snd]. lia.
+      destruct (length_check (zlen data) n v ltac:(lia) Hmax Hc) as (H0 & _ & _). cbn [safe bind fst snd i_off]. lia. }
+    destruct (wt =? 5); [cbn [safe bind fst snd i_off]; lia|]. destruct (wt =? 1); [cbn [safe bind fst snd i_off]; lia|]. exact I.
+  - intros skip Hs. cbv beta in Hs. destruct (zlen data <? skip)%Z eqn:Hc; [exact I|]. cbn [safe bind fst snd i_off]. lia.
 Qed.
 
 (* ---- the shared "length-delimited" step: varint length at [offset], checked, then sliced ---- *)
@@ -51,18 +51,18 @@ Proof.
     destruct (skipn_slice data (offset + n) ltac:(lia)) as [-> Hl2]. cbn [bind].
     sbind; [apply decode_varint_safe|]. intros [v2 n2] (_ & Hn2 & Hnl2). rewrite Hl2 in Hnl2.
     destruct (u64_of_int (zlen data - (offset + n + n2)) <? v2) eqn:Hc; [exact I|].
-    destruct (length_check _ _ _ ltac:(lia) Hmax Hc) as (H0 & H1 & _).
-    rewrite slice3_ok by lia. cbn [safe bind fst snd]. lia. }
+    destruct (length_check (zlen data) (offset + n + n2)%Z v2 ltac:(lia) Hmax Hc) as (H0 & H1 & _).
+    rewrite slice3_ok by lia. cbn [safe bind fst snd i_off]. lia. }
   destruct (v / 8 =? 4).
   { sbind; [apply expect_wt_safe|]. intros _ _.
     destruct (skipn_slice data (offset + n) ltac:(lia)) as [-> Hl2]. cbn [bind].
-    sbind; [apply decode_varint_safe|]. intros [v2 n2] (_ & Hn2 & Hnl2). rewrite Hl2 in Hnl2. cbn [safe bind fst snd]. lia. }
+    sbind; [apply decode_varint_safe|]. intros [v2 n2] (_ & Hn2 & Hnl2). rewrite Hl2 in Hnl2. cbn [safe bind fst snd i_off]. lia. }
   destruct (v / 8 =? 3).
   { sbind; [apply expect_wt_safe|]. intros _ _.
     destruct (zlen data - (offset + n) <? 8)%Z eqn:Hc; [exact I|].
-    rewrite slice3_ok by lia. cbn [safe bind fst snd]. lia. }
+    rewrite slice3_ok by lia. cbn [safe bind fst snd i_off]. lia. }
   destruct (skipn_slice data (offset + n) ltac:(lia)) as [-> Hl2]. cbn [bind].
-  sbind; [apply skip_tag_safe; lia|]. intros k Hk. rewrite Hl2 in Hk. cbn [safe bind fst snd]. lia.
+  sbind; [apply skip_tag_safe; lia|]. intros k Hk. rewrite Hl2 in Hk. cbn [safe bind fst snd i_off]. lia.
 Qed.
 
 Lemma kv_unmarshal_safe data : (zlen data <= max_int)%Z -> safe (fun _ => True) (kv_unmarshal data).
@@ -73,7 +73,7 @@ Proof.
   - intros [offset e] Ho. cbn [fst] in Ho. unfold kv_body.
     sbind; [apply (kv_field_safe data offset e Ho Hmax)|].
     intros [offset' e'] Hp. cbn [fst] in Hp.
-    destruct (offset' =? zlen data)%Z; cbn [safe bind fst snd]; [exact I|]. cbn [fst]. lia.
+    destruct (offset' =? zlen data)%Z; cbn [safe bind fst snd i_off]; [exact I|]. cbn [fst]. lia.
   - cbn [fst]. pose proof (zlen_nonneg data). lia.
   - cbn [fst]. unfold zlen. lia.
 Qed.
@@ -96,16 +96,16 @@ Proof.
     destruct (skipn_slice data (offset + n) ltac:(lia)) as [-> Hl2]. cbn [bind].
     sbind; [apply decode_varint_safe|]. intros [v2 n2] (_ & Hn2 & Hnl2). rewrite Hl2 in Hnl2.
     destruct (u64_of_int (zlen data - (offset + n + n2)) <? v2) eqn:Hc; [exact I|].
-    destruct (length_check _ _ _ ltac:(lia) Hmax Hc) as (H0 & H1 & _).
+    destruct (length_check (zlen data) (offset + n + n2)%Z v2 ltac:(lia) Hmax Hc) as (H0 & H1 & _).
     rewrite slice3_ok by lia. cbn [bind safe].
     destruct (v / 8 =? 1); [cbn [i_off]; lia|]. destruct (v / 8 =? 4); cbn [i_off]; lia. }
   destruct (v / 8 =? 3).
   { sbind; [apply expect_wt_safe|]. intros _ _.
     destruct (skipn_slice data (offset + n) ltac:(lia)) as [-> Hl2]. cbn [bind].
     sbind; [apply decode_varint_safe|]. intros [v2 n2] (_ & Hn2 & Hnl2). rewrite Hl2 in Hnl2.
-    cbn [safe bind fst snd]. lia. }
+    cbn [safe bind fst snd i_off]. lia. }
   destruct (skipn_slice data (offset + n) ltac:(lia)) as [-> Hl2]. cbn [bind].
-  sbind; [apply skip_tag_safe; lia|]. intros k Hk. rewrite Hl2 in Hk. cbn [safe bind fst snd]. lia.
+  sbind; [apply skip_tag_safe; lia|]. intros k Hk. rewrite Hl2 in Hk. cbn [safe bind fst snd i_off]. lia.
 Qed.
 
 Lemma index_data_safe data : (zlen data <= max_int)%Z -> safe (fun _ => True) (index_data data).
@@ -139,9 +139,9 @@ Proof.
   destruct (zlen data <=? offset)%Z eqn:Hend; [exact I|].
   destruct (skipn_slice data offset Ho) as [-> Hl]. cbn [bind].
   sbind; [apply decode_varint_safe|]. intros [v n] (_ & Hn & Hnl). rewrite Hl in Hnl.
-  destruct (v / 8 =? 2); [cbn [safe bind fst snd]; lia|].
+  destruct (v / 8 =? 2); [cbn [safe bind fst snd i_off]; lia|].
   destruct (skipn_slice data (offset + n) ltac:(lia)) as [-> Hl2]. cbn [bind].
-  sbind; [apply skip_tag_safe; lia|]. intros k Hk. rewrite Hl2 in Hk. cbn [safe bind fst snd]. lia.
+  sbind; [apply skip_tag_safe; lia|]. intros k Hk. rewrite Hl2 in Hk. cbn [safe bind fst snd i_off]. lia.
 Qed.
 
 Lemma next_loop_safe data cur : (0 <= cur <= zlen data)%Z -> (zlen data <= max_int)%Z ->
@@ -154,7 +154,7 @@ Proof.
   apply (loop_safe (next_body data) (fun off => (cur <= off <= zlen data)%Z)
                    (fun off => Z.to_nat (zlen data - off))).
   - intros off Ho. eapply safe_weaken; [apply (next_body_safe data off ltac:(lia) Hmax)|].
-    intros [off'|[[off' wt]|]] H; try lia. exact I.
+    intros [off'|[[off' wt]|]] H; first [lia|exact I].
   - lia.
   - unfold zlen. lia.
 Qed.
@@ -172,11 +172,11 @@ Proof.
   destruct (skipn_slice data offset ltac:(lia)) as [-> Hl]. cbn [bind].
   sbind; [apply decode_varint_safe|]. intros [v n] (_ & Hn & Hnl). rewrite Hl in Hnl.
   destruct (u64_of_int (zlen data - (offset + n)) <? v) eqn:Hck; [exact I|].
-  destruct (length_check _ _ _ ltac:(lia) Hmax Hck) as (H0 & H1 & _).
+  destruct (length_check (zlen data) (offset + n)%Z v ltac:(lia) Hmax Hck) as (H0 & H1 & _).
   rewrite slice3_ok by lia. cbn [bind].
   sbind; [apply kv_unmarshal_safe|].
   - rewrite zlen_slice3 by lia. lia.
-  - intros e _. cbn [safe bind fst snd]. lia.
+  - intros e _. cbn [safe bind fst snd i_off]. lia.
 Qed.
 
 Lemma all_entries_safe data : (zlen data <= max_int)%Z -> safe (fun _ => True) (all_entries data).
@@ -186,7 +186,7 @@ Proof.
                    (fun st => Z.to_nat (zlen data - fst st))).
   - intros [cur acc] Ho. cbn [fst] in Ho. unfold entries_body.
     sbind; [apply (dbi_next_safe data cur Ho Hmax)|].
-    intros [[e cur']|] H; cbn [safe bind fst snd]; [cbn [fst]; lia|exact I].
+    intros [[e cur']|] H; cbn [safe bind fst snd i_off]; [cbn [fst]; lia|exact I].
   - cbn [fst]. pose proof (zlen_nonneg data). lia.
   - cbn [fst]. unfold zlen. lia.
 Qed.
@@ -206,7 +206,7 @@ Proof.
   intros Ho. unfold dec_tag. destruct (zlen p <=? off)%Z eqn:He; [exact I|].
   destruct (skipn_slice p off ltac:(lia)) as [-> Hl]. cbn [bind].
   sbind; [apply decode_varint_safe|]. intros [v n] (_ & Hn & Hnl). rewrite Hl in Hnl.
-  destruct ((n <? 1)%Z || (v <? 1) || (MaxTagValue <? v)); [exact I|]. cbn [safe bind fst snd]. unfold fwd. lia.
+  destruct ((n <? 1)%Z || (v <? 1) || (MaxTagValue <? v)); [exact I|]. cbn [safe bind fst snd i_off]. unfold fwd. lia.
 Qed.
 
 Lemma dec_bytes_safe maxlen p off : (0 <= off)%Z -> (zlen p <= max_int)%Z -> maxlen < two63 ->
@@ -233,7 +233,7 @@ Proof.
   intros Ho. unfold dec_uint32. destruct (zlen p <=? off)%Z eqn:He; [exact I|].
   destruct (skipn_slice p off ltac:(lia)) as [-> Hl]. cbn [bind].
   sbind; [apply decode_varint_safe|]. intros [v n] (_ & Hn & Hnl). rewrite Hl in Hnl.
-  destruct (n =? 0)%Z; [exact I|]. destruct (MaxUint32 <? v); [exact I|]. cbn [safe bind fst snd]. unfold fwd. lia.
+  destruct (n =? 0)%Z; [exact I|]. destruct (MaxUint32 <? v); [exact I|]. cbn [safe bind fst snd i_off]. unfold fwd. lia.
 Qed.
 
 Lemma dec_int64_safe p off : (0 <= off)%Z -> safe (fun x => fwd p off (snd x)) (dec_int64 p off).
@@ -241,7 +241,7 @@ Proof.
   intros Ho. unfold dec_int64. destruct (zlen p <=? off)%Z eqn:He; [exact I|].
   destruct (skipn_slice p off ltac:(lia)) as [-> Hl]. cbn [bind].
   sbind; [apply decode_varint_safe|]. intros [v n] (_ & Hn & Hnl). rewrite Hl in Hnl.
-  destruct (n =? 0)%Z; [exact I|]. cbn [safe bind fst snd]. unfold fwd. lia.
+  destruct (n =? 0)%Z; [exact I|]. cbn [safe bind fst snd i_off]. unfold fwd. lia.
 Qed.
 
 Lemma dec_fixed64_safe p off : (0 <= off)%Z -> safe (fun x => fwd p off (snd x)) (dec_fixed64 p off).
@@ -249,7 +249,7 @@ Proof.
   intros Ho. unfold dec_fixed64. destruct (zlen p <=? off)%Z eqn:He; [exact I|].
   destruct (skipn_slice p off ltac:(lia)) as [-> Hl]. cbn [bind].
   destruct (Nat.ltb (length (skipn (Z.to_nat off) p)) 8) eqn:Hc; [exact I|].
-  apply Nat.ltb_ge in Hc. cbn [safe bind fst snd]. unfold fwd, zlen in *. lia.
+  apply Nat.ltb_ge in Hc. cbn [safe bind fst snd i_off]. unfold fwd, zlen in *. lia.
 Qed.
 
 Lemma sizeof_varint_pos v : 1 <= sizeof_varint v.
@@ -262,17 +262,17 @@ Proof.
   sbind; [instantiate (1 := fun skipped => (1 <= skipped)%Z)|].
   - destruct (wt =? 0).
     { destruct (skipn_slice p off ltac:(lia)) as [-> Hl]. cbn [bind].
-      sbind; [apply decode_varint_safe|]. intros [v n] (_ & Hn & _). cbn [safe bind fst snd]. lia. }
-    destruct (wt =? 1); [cbn [safe bind fst snd]; lia|].
+      sbind; [apply decode_varint_safe|]. intros [v n] (_ & Hn & _). cbn [safe bind fst snd i_off]. lia. }
+    destruct (wt =? 1); [cbn [safe bind fst snd i_off]; lia|].
     destruct (wt =? 2).
     { destruct (skipn_slice p off ltac:(lia)) as [-> Hl]. cbn [bind].
       sbind; [apply decode_varint_safe|]. intros [l n] (_ & Hn & _).
       destruct (n =? 0)%Z; [exact I|]. destruct (maxlen <? l) eqn:Hc; [exact I|].
-      rewrite int_of_u64_small by lia. cbn [safe bind fst snd]. lia. }
-    destruct (wt =? 5); [cbn [safe bind fst snd]; lia|]. exact I.
-  - intros skipped Hs. destruct (zlen p <? off + skipped)%Z eqn:Hc; [exact I|].
+      rewrite int_of_u64_small by lia. cbn [safe bind fst snd i_off]. lia. }
+    destruct (wt =? 5); [cbn [safe bind fst snd i_off]; lia|]. exact I.
+  - intros skipped Hs. cbv beta in Hs. destruct (zlen p <? off + skipped)%Z eqn:Hc; [exact I|].
     rewrite slice3_ok by (pose proof (sizeof_varint_pos (u64 (tag * 8))); lia).
-    cbn [safe bind fst snd]. unfold fwd. lia.
+    cbn [safe bind fst snd i_off]. unfold fwd. lia.
 Qed.
 
 Lemma maxlen_default_small : MaxFieldLenDefault < two63. Proof. reflexivity. Qed.
@@ -288,24 +288,24 @@ Proof.
   pose proof maxlen_default_small as Hml.
   assert (Hstr : forall (k : bytes -> meta),
             safe (fun x => match x with inl (off', _) => fwd p off off' | inr _ => True end)
-                 (do (s, off2) <- get_string MaxFieldLenDefault p off1 wt; Ok (inl (off2, k s)))).
+                 (do (s, off2) <- get_string MaxFieldLenDefault p off1 wt; Ok (@inl (Z * meta) meta (off2, k s)))).
   { intros k. unfold get_string. sbind; [sbind; [apply expect_wt_safe|intros _ _; apply dec_string_safe; try assumption; lia]|].
-    intros [s off2] [H2 _]. cbn [snd] in H2. cbn [safe bind fst snd]. unfold fwd in *. lia. }
+    intros [s off2] [H2 _]. cbn [snd] in H2. cbn [safe bind fst snd i_off]. unfold fwd in *. lia. }
   assert (Hint : forall (k : Z -> meta),
             safe (fun x => match x with inl (off', _) => fwd p off off' | inr _ => True end)
-                 (do (x, off2) <- get_int64 p off1 wt; Ok (inl (off2, k x)))).
+                 (do (x, off2) <- get_int64 p off1 wt; Ok (@inl (Z * meta) meta (off2, k x)))).
   { intros k. unfold get_int64. sbind; [sbind; [apply expect_wt_safe|intros _ _; apply dec_int64_safe; lia]|].
-    intros [s off2] H2. cbn [snd] in H2. cbn [safe bind fst snd]. unfold fwd in *. lia. }
+    intros [s off2] H2. cbn [snd] in H2. cbn [safe bind fst snd i_off]. unfold fwd in *. lia. }
   destruct (tag =? 1); [apply (Hstr (fun s => mkMeta s _ _ _ _ _ _))|].
   destruct (tag =? 2); [apply (Hstr (fun s => mkMeta _ s _ _ _ _ _))|].
   destruct (tag =? 3); [apply (Hstr (fun s => mkMeta _ _ s _ _ _ _))|].
   destruct (tag =? 4); [apply (Hint (fun x => mkMeta _ _ _ x _ _ _))|].
   destruct (tag =? 5).
   { unfold get_fixed64. sbind; [sbind; [apply expect_wt_safe|intros _ _; apply dec_fixed64_safe; lia]|].
-    intros [x off2] H2. cbn [snd] in H2. cbn [safe bind fst snd]. unfold fwd in *. lia. }
+    intros [x off2] H2. cbn [snd] in H2. cbn [safe bind fst snd i_off]. unfold fwd in *. lia. }
   destruct (tag =? 7); [apply (Hstr (fun s => mkMeta _ _ _ _ _ s _))|].
   destruct (tag =? 8); [apply (Hint (fun x => mkMeta _ _ _ _ _ _ x))|].
-  sbind; [apply dec_skip_safe; try assumption; lia|]. intros off2 H2. cbn [safe bind fst snd]. unfold fwd in *. lia.
+  sbind; [apply dec_skip_safe; try assumption; lia|]. intros off2 H2. cbn [safe bind fst snd i_off]. unfold fwd in *. lia.
 Qed.
 
 Lemma meta_unmarshal_safe data m : (zlen data <= max_int)%Z -> safe (fun _ => True) (meta_unmarshal data m).
@@ -344,26 +344,26 @@ Proof.
                            | inl st' => snap_inv p st' /\ (off < fst st')%Z
                            | inr s' => s' = s
                            end)
-                 (do (x, off2) <- get_uint32 p off1 wt; Ok (inl (off2, k x)))).
+                 (do (x, off2) <- get_uint32 p off1 wt; Ok (@inl (Z * snap_obj) snap_obj (off2, k x)))).
   { intros k Hk. unfold get_uint32. sbind; [sbind; [apply expect_wt_safe|intros _ _; apply dec_uint32_safe; lia]|].
-    intros [x off2] H2. cbn [snd] in H2. unfold fwd in H2. cbn [safe bind fst snd]. unfold snap_inv. cbn [fst snd].
+    intros [x off2] H2. cbn [snd] in H2. unfold fwd in H2. cbn [safe bind fst snd i_off]. unfold snap_inv. cbn [fst snd].
     rewrite Hk. repeat split; try assumption; lia. }
   destruct (tag =? 1); [apply (Hu32 (fun x => mkSnapObj x _ _ _)); reflexivity|].
   destruct (tag =? 4); [apply (Hu32 (fun x => mkSnapObj _ x _ _)); reflexivity|].
   destruct (tag =? 2).
   { unfold get_bytes. sbind; [sbind; [apply expect_wt_safe|intros _ _; apply dec_bytes_safe; try assumption; lia]|].
     intros [msg off2] [H2 Hm]. cbn [fst snd] in H2, Hm. unfold fwd in H2.
-    sbind; [apply meta_unmarshal_safe; lia|]. intros m' _. cbn [safe bind fst snd]. unfold snap_inv. cbn [fst snd so_dbis].
+    sbind; [apply meta_unmarshal_safe; lia|]. intros m' _. cbn [safe bind fst snd i_off]. unfold snap_inv. cbn [fst snd so_dbis].
     repeat split; try assumption; lia. }
   destruct (tag =? 3).
   { unfold get_bytes. sbind; [sbind; [apply expect_wt_safe|intros _ _; apply dec_bytes_safe; try assumption; lia]|].
     intros [msg off2] [H2 Hm]. cbn [fst snd] in H2, Hm. unfold fwd in H2.
-    sbind; [apply new_dbi_from_data_safe; lia|]. intros d Hd. cbn [safe bind fst snd]. unfold snap_inv. cbn [fst snd so_dbis].
+    sbind; [apply new_dbi_from_data_safe; lia|]. intros d Hd. cbn [safe bind fst snd i_off]. unfold snap_inv. cbn [fst snd so_dbis].
     repeat split; try lia.
     - apply Forall_app. split; [exact Hall|]. constructor; [rewrite Hd; exact Hm|constructor].
     - rewrite app_length. cbn [length]. lia. }
   sbind; [apply dec_skip_safe; try assumption; lia|]. intros off2 H2. unfold fwd in H2.
-  cbn [safe bind fst snd]. unfold snap_inv. cbn [fst snd]. repeat split; try assumption; lia.
+  cbn [safe bind fst snd i_off]. unfold snap_inv. cbn [fst snd]. repeat split; try assumption; lia.
 Qed.
 
 Lemma snap_unmarshal_safe b : (zlen b <= max_int)%Z ->
@@ -401,10 +401,12 @@ Proof.
 Qed.
 
 Theorem decode_ok_or_err b : (zlen b <= max_int)%Z ->
-  (exists s, custom_decode b = Ok s) \/ custom_decode b = Err EMalformed.
+  (exists s, custom_decode b = Ok s) \/ (exists e, custom_decode b = Err e).
 Proof.
   intros Hmax. pose proof (custom_decode_safe b Hmax) as H.
-Abort.
+  destruct (custom_decode b) as [s|e| |]; cbn [safe] in H; try contradiction;
+    [left; exists s; reflexivity|right; exists e; reflexivity].
+Qed.
 
 (* C08_mem: every DBI object costs at least two bytes of input (tag + length), and holds a sub-slice
    of the input (no copy): the decoder's memory is bounded by the input *)
@@ -412,7 +414,7 @@ Theorem dbi_objects_bound b s : (zlen b <= max_int)%Z -> snap_unmarshal b = Ok s
   (2 * length (so_dbis s) <= length b)%nat /\
   Forall (fun o => (length (o_data o) <= length b)%nat) (so_dbis s).
 Proof.
-  intros Hmax H. pose proof (snap_unmarshal_safe b Hmax) as Hs. rewrite H in Hs. cbn in Hs.
+  intros Hmax H. pose proof (snap_unmarshal_safe b Hmax) as Hs. rewrite H in Hs. cbn [safe] in Hs.
   destruct Hs as [Hall Hc]. unfold zlen in *. split; [lia|].
-  eapply Forall_impl; [|exact Hall]. cbn [safe bind fst snd]. intros o Ho. lia.
+  eapply Forall_impl; [|exact Hall]. intros o Ho. cbv beta in Ho. lia.
 Qed.
